@@ -6,6 +6,7 @@ package cdcnx
 
 import (
 	"fmt"
+	"math"
 	"reflect"
 	"sort"
 	"strings"
@@ -159,6 +160,18 @@ func Same(orig, parsed any, path string) string {
 		}
 		if a != b {
 			return fmt.Sprintf("%s: %#v became %#v", path, a, b)
+		}
+		// "exact numeric values": a zero keeps its sign (== cannot tell +0 from -0)
+		switch x := a.(type) {
+		case float64:
+			if math.Signbit(x) != math.Signbit(b.(float64)) {
+				return fmt.Sprintf("%s: %v became %v (the sign of a zero)", path, a, b)
+			}
+		case complex128:
+			y := b.(complex128)
+			if math.Signbit(real(x)) != math.Signbit(real(y)) || math.Signbit(imag(x)) != math.Signbit(imag(y)) {
+				return fmt.Sprintf("%s: %v became %v (the sign of a zero part)", path, a, b)
+			}
 		}
 		return ""
 	}
